@@ -1,11 +1,13 @@
 package props
 
 import (
+	"context"
 	"fmt"
 	"math/rand"
 	"regexp"
 	"sort"
 	"strings"
+	"sync"
 	"sync/atomic"
 	"time"
 
@@ -510,8 +512,85 @@ func init() {
 			return []core.Workload{
 				{Name: "attribute_queries", N: c.Pick(900, 9000), Fn: c12Case},
 				{Name: "registration_changes", N: c.Pick(150, 1500), Fn: c12Registration},
+				{Name: "overlapping_queries", N: c.Pick(60, 600), Fn: c12Overlap},
 			}
 		},
 		After: func(c *Ctx) { verify.Py.Close() },
 	})
+}
+
+// c12Overlap: two attribute queries of two service providers about two users are in flight on one provider; the first
+// is held inside its service-provider lookup until the second has been answered completely. Each answer is about its
+// own query: InResponseTo, subject, audience and every attribute value.
+func c12Overlap(r *core.Run, idx int, rng *rand.Rand) {
+	const wl = "overlapping_queries"
+	e := env.Static(env.Opts{})
+	spA, spB := stdSP(0), stdSP(1)
+	mustRegister(e.W, spA, "appA")
+	mustRegister(e.W, spB, "appB")
+	uA := randUser(rng, fmt.Sprintf("U_MK%doa", idx), false)
+	uB := randUser(rng, fmt.Sprintf("U_MK%dob", idx), false)
+	e.W.AddUser(uA)
+	e.W.AddUser(uB)
+	qA, qB := conformantQuery(rng, spA, uA.Username), conformantQuery(rng, spB, uB.Username)
+	qA.ID, qB.ID = fmt.Sprintf("_qa%d%s", idx, randHex(rng, 4)), fmt.Sprintf("_qb%d%s", idx, randHex(rng, 4))
+	bodyA, bodyB := qA.XML(rng), qB.XML(rng)
+	heldOp := []string{"GetEntityByID", "SetUserinfoWithLoginName", "GetResponseSigningKey"}[idx%3]
+	tagA := fmt.Sprintf("ovA%d", idx)
+	inside, bDone := make(chan struct{}), make(chan struct{})
+	var once sync.Once
+	e.W.Before = func(_ context.Context, tag, op string, _ int) {
+		if tag == tagA && op == heldOp {
+			first := false
+			once.Do(func() { first = true; close(inside) })
+			if first {
+				select {
+				case <-bDone:
+				case <-time.After(500 * time.Millisecond):
+				}
+			}
+		}
+	}
+	var callA *env.Call
+	doneA := make(chan struct{})
+	go func() {
+		callA = e.Do(env.Req{Method: "POST", Path: env.PathAttr, Body: bodyA, CT: "text/xml", Tag: tagA})
+		close(doneA)
+	}()
+	select {
+	case <-inside:
+	case <-doneA:
+	}
+	callB := e.Do(env.Req{Method: "POST", Path: env.PathAttr, Body: bodyB, CT: "text/xml"})
+	close(bDone)
+	<-doneA
+	for _, x := range []struct {
+		name       string
+		call       *env.Call
+		q          *spsim.AttrQuery
+		own, other *sim.User
+		sp         *spsim.SPDesc
+	}{{"held_query", callA, qA, uA, uB, spA}, {"query_answered_meanwhile", callB, qB, uB, uA, spB}} {
+		class := fmt.Sprintf("overlap|%s|held_in=%s", x.name, heldOp)
+		desc := map[string]any{"held_operation": heldOp, "query_id": x.q.ID, "subject": x.own.Username, "other_query_id": map[bool]string{true: qB.ID, false: qA.ID}[x.name == "held_query"]}
+		r.Eval(fmt.Sprintf("%s|%d", class, idx))
+		r.Count("overlapping_queries", 1)
+		if x.call.Panic != "" {
+			r.Violate(core.Violation{Clause: "panic", Class: class, Reason: x.call.Panic, Workload: wl, Index: idx, Case: desc, Observed: x.call.Describe()})
+			continue
+		}
+		d := x.call.D
+		full := d.FullText()
+		otherCanary := x.other.UserID[:strings.Index(x.other.UserID, "uid")]
+		if strings.Contains(full, otherCanary) {
+			r.Violate(core.Violation{Clause: "data_of_another_query", Class: class, Reason: fmt.Sprintf("the answer to the query about %q carries data of %q, the subject of the other query in flight", x.own.Username, x.other.Username), Workload: wl, Index: idx, Case: desc, Observed: x.call.Describe()})
+			continue
+		}
+		if d.Msg != nil && d.Success() {
+			r.Count("overlapping_queries_answered", 1)
+			if d.Msg.InResponseTo != x.q.ID || d.Msg.NameID != x.own.Username || len(d.Msg.Audiences) != 1 || d.Msg.Audiences[0] != x.sp.EntityID {
+				r.Violate(core.Violation{Clause: "answer_to_another_query", Class: class, Reason: fmt.Sprintf("InResponseTo %q (query %q), subject %q (queried %q), audience %v (requester %q)", d.Msg.InResponseTo, x.q.ID, d.Msg.NameID, x.own.Username, d.Msg.Audiences, x.sp.EntityID), Workload: wl, Index: idx, Case: desc, Observed: x.call.Describe()})
+			}
+		}
+	}
 }
